@@ -56,6 +56,11 @@ type orderExc struct {
 // excEffects[key] = reviewed effect fingerprints of range-site exceptions.
 var excEffects = map[string]map[string]bool{}
 
+// commutativeCallees: functions whose effects on their receiver are reviewed to be independent of the order of
+// calls (keyed set inserts): an effect that happens inside one of them does not make a loop order-sensitive, at
+// whatever site the loop stands.
+var commutativeCallees = map[string]string{}
+
 // sortClass[key] for the sort: entries of the table.
 var sortClass = map[string]string{}
 
@@ -65,10 +70,21 @@ func loadOrderExceptions(verif string) (map[string]string, error) {
 		return nil, err
 	}
 	var t struct {
-		Entries []orderExc `json:"entries"`
+		Entries     []orderExc `json:"entries"`
+		Commutative []struct {
+			Func   string `json:"func"`
+			Reason string `json:"reason"`
+		} `json:"commutative_callees"`
 	}
 	if err := json.Unmarshal(b, &t); err != nil {
 		return nil, err
+	}
+	commutativeCallees = map[string]string{}
+	for _, cc := range t.Commutative {
+		if strings.TrimSpace(cc.Reason) == "" {
+			return nil, fmt.Errorf("maporder_exceptions.json: commutative callee %q has no reason", cc.Func)
+		}
+		commutativeCallees[cc.Func] = cc.Reason
 	}
 	out := map[string]string{}
 	for _, e := range t.Entries {
@@ -198,6 +214,26 @@ func runC10(c *core.Ctx) error {
 				key := fmt.Sprintf("%s#%d", base, ordOf[base])
 				ordOf[base]++
 				problems := classifyMapRange(c, an, fn, rg)
+				if len(problems) > 0 && len(commutativeCallees) > 0 {
+					kept := problems[:0:0]
+					for _, p := range problems {
+						comm := false
+						for f := range commutativeCallees {
+							if strings.Contains(p.what, "(in "+f+")") {
+								comm = true
+							}
+						}
+						if !comm {
+							kept = append(kept, p)
+						}
+					}
+					if len(kept) == 0 {
+						r1.Justified++
+						r1.Pass(fmt.Sprintf("%s at %s: the only order-sensitive-looking effects happen inside reviewed commutative callees", key, c.Pos(core.InstrPos(rg))))
+						continue
+					}
+					problems = kept
+				}
 				if len(problems) > 0 && rangedMapHasOneEntry(rg) {
 					r1.Pass(fmt.Sprintf("%s at %s: the map is tested to have exactly one entry before the loop (len == 1 on every path to it), there is one order", key, c.Pos(core.InstrPos(rg))))
 					continue
